@@ -143,5 +143,10 @@ fixed("C16", "C16-type-by-variable", "70087a8", "__type(name: $n) looked up the 
 fixed("C16", "C16-interface-possible-types", "cacf763", "possibleTypes of interfaces was null")
 fixed("C16", "C16-input-field-default", "baffcba", "defaultValue missing from inputFields")
 
+# ----------------------------------------------------------------------------- C13
+known("C13", "C13-root-node-map-order", ["root-node"], r"^outcome depends on map iteration order / schedule: ",
+      "for the root node() entry point the planner builds root steps by ranging over maps keyed by service URL (groupSelectionSetForNodeField innerRes / routeSelectionSet result); which service is asked, and therefore the answer, depends on the iteration order",
+      witness='{ node(id:"N1_1") { ... on N1 { phone } } }')
+
 json.dump(E, open('/verif/known_findings.json', 'w'), indent=1, ensure_ascii=False)
 print(len(E), "entries")
